@@ -86,8 +86,15 @@ func Keys(dir, kind, format, password string, n int) (*KeyPair, error) {
 // WithPipe fills a configuration's pipeline and crypto parts: "compression+encryption+signature"
 // (empty parts allowed, e.g. "gzip++", "+age+minisign").
 func WithPipe(c Cfg, spec, keyDir string) (Cfg, error) {
-	parts := strings.Split(spec+"++", "+")
+	parts := strings.Split(spec+"++++", "+")
 	c.Compression, c.Encryption, c.Signature = parts[0], parts[1], parts[2]
+	// optional: compression level and write-cache type ("gzip+age+pgp+smallest+memory")
+	if parts[3] != "" {
+		c.Level = parts[3]
+	}
+	if parts[4] != "" {
+		c.CacheType = parts[4]
+	}
 	if c.Compression == "none" {
 		c.Compression = ""
 	}
